@@ -209,7 +209,14 @@ def rule_declare_path(check):
 def _dup_test(prog, vbs):
     """(function, call nodes): the collision test = the crate predicate whose truth leads to cancel_visit
     in the block driver (found by role, whatever it is called and wherever it lives)"""
-    for n in hir.calls_in(vbs.body, name="cancel_visit"):
+    # the places where the block driver refuses the rewrite: a call of a crate function that writes
+    # Status::Cancelled to the file status (cancel_visit), or that write itself
+    points = [n for n in vbs.nodes() if hir.is_cancel_write(n)]
+    for n in hir.calls_in(vbs.body):
+        g_ = prog.resolve_local(n)
+        if g_ is not None and g_.body is not None and any(hir.is_cancel_write(x) for x in g_.nodes()):
+            points.append(n)
+    for n in points:
         for a in gate.atoms_at(vbs, n):
             if a[0] == "call" and a[4] is True and isinstance(a[5], dict):
                 g = prog.resolve_local(a[5])
@@ -770,14 +777,15 @@ def rule_refusal(check):
     for p in tr.paths(f.body, tr.initial_env()):
         calls = [e for e in p.effects if e["kind"] == "call" and e.get("depth") == 0]
         names = [e["name"] for e in calls]
+        cancels_ = any(T.effect_cancels(prog, e) for e in p.effects)
         dup = [c for c in p.conds if hir.cond_call(c) and prog.resolve_local(hir.cond_call(c)[4]) is dupfn]
         if "insert_variable_declaration" in names:
             n_decl += 1
-            ok = bool(dup) and all(hir.cond_call(c)[3] is False for c in dup) and "cancel_visit" not in names
+            ok = bool(dup) and all(hir.cond_call(c)[3] is False for c in dup) and not cancels_
             check.expect(ok, R, R + "/declare-only-if-no-clash", hir.loc(f.rec), "let inserted on the no-duplicate edge", "insert_variable_declaration runs without (or before) the duplicate test")
             order = names.index("insert_variable_declaration") > max([i for i, e in enumerate(p.effects) if e["kind"] == "children" and e["vty"].endswith(OPV)] or [-1]) - len(p.effects)
         if dup and all(hir.cond_call(c)[3] is True for c in dup):
-            ok = "cancel_visit" in names and p.term
+            ok = cancels_ and p.term
             check.expect(ok, R, R + "/cancel-on-clash", hir.loc(f.rec), "clash cancels the visit and returns", "a name clash does not cancel the rewrite")
     check.floor(R, "declaring paths", n_decl, 1)
     for d in dup_calls:
